@@ -731,6 +731,47 @@ def r5_map_paths(ctx):
                          note='loop id %r parses as a segment designator (grammar ambiguity, by design)' % n.id)
 
 
+def r10_values_compared_by_value(ctx):
+    """parsing the printed form gives an EQUAL path: path parts and segment values are numbers and texts, and two parses
+    of the same text hold different objects for them (CPython shares only small integers and some strings), so in
+    path.py and segment.py an identity test (`is` / `is not`) is only sound against a singleton - None, True, False,
+    NotImplemented, Ellipsis - or between objects of the program (`self is other`, a node and a node).  An identity
+    test between two value-typed fields (`self.ele_idx is other.ele_idx`) makes equal paths unequal beyond the shared range."""
+    SINGLE = {'None', 'True', 'False', 'NotImplemented', 'Ellipsis'}
+    n = 0
+    for mod in ('path', 'segment'):
+        # attributes that only ever hold a truth value (bound to True / False / a comparison): those are singletons too
+        binds = {}
+        for x in ast.walk(ctx.mod(mod).tree):
+            if isinstance(x, ast.Assign):
+                for t in x.targets:
+                    if isinstance(t, ast.Attribute):
+                        binds.setdefault(t.attr, []).append(x.value)
+        boolean = {a_ for a_, vs in binds.items() if all((isinstance(v, ast.Constant) and (isinstance(v.value, bool) or v.value is None)) or isinstance(v, ast.Compare)
+                                                            or (isinstance(v, ast.UnaryOp) and isinstance(v.op, ast.Not)) for v in vs)}
+        for q, f in A.all_functions(ctx.mod(mod).tree):
+            f = ctx.func(mod, q, required=False) or f
+            for c in ast.walk(f):
+                if not isinstance(c, ast.Compare):
+                    continue
+                operands = [c.left] + list(c.comparators)
+                for i, op in enumerate(c.ops):
+                    if not isinstance(op, (ast.Is, ast.IsNot)):
+                        continue
+                    a, b = operands[i], operands[i + 1]
+                    n += 1
+                    single = any((isinstance(x, ast.Constant) and (x.value is None or x.value is True or x.value is False or x.value is Ellipsis))
+                                 or (isinstance(x, ast.Name) and x.id in SINGLE) for x in (a, b))
+                    objects = all(isinstance(x, ast.Name) and x.id in ('self', 'other') for x in (a, b))
+                    booleans = all(isinstance(x, ast.Attribute) and x.attr in boolean for x in (a, b))
+                    ok = single or objects or booleans
+                    yield Ob('%s:%s identity test %s' % (mod, q, norm(c)), ok, ctx.floc(f, c),
+                             '' if ok else 'two values are compared by identity: equal numbers / texts from two parses are different objects beyond the '
+                             'range the interpreter shares (integers above 256), so equal paths compare unequal')
+    if n < 5:
+        raise AnalysisError('path.py / segment.py: identity tests not found (%d)' % n)
+
+
 RULES = [
     Rule('C17.R1', 'rec_path / rec_seg_id equal the documented grammars (DFA equivalence)', r1_languages, floor=3),
     Rule('C17.R2', 'printer/parser agreement of format_refdes and __repr__ vs __init__', r2_print_parse, floor=5),
@@ -739,6 +780,7 @@ RULES = [
     Rule('C17.R7', 'shared with C01.R8: format prints every position up to the last non-empty one', r7_shared_format, floor=2),
     Rule('C17.R8', 'len() counts every position; Segment.__init__ builds one separate Composite per element (constant propagation)', r8_positions, floor=3),
     Rule('C17.R9', 'is_empty of element / composite / segment, Segment.get and get_value decided per position (constant propagation)', r9_accessors, floor=5),
+    Rule('C17.R10', 'identity tests in path.py / segment.py are against singletons only (values are compared by value)', r10_values_compared_by_value, floor=8),
     Rule('C17.R6', 'reading methods of Element/Composite/Segment do not modify the object (no store, delete or mutating call, also through aliases)', r6_reads_do_not_write, floor=30),
     Rule('C17.R5', 'every map node path component parses into its own parts', r5_map_paths, floor=2400),
 ]
